@@ -45,6 +45,8 @@ def hessian(kind, n):
         return np.outer(v, v)
     if kind == "indef":
         return np.where(np.eye(n) > 0, 1.0, 2.0)
+    if kind == "offneg":  # zero diagonal, negative couplings: moving along one variable pushes the others upwards
+        return np.where(np.eye(n) > 0, 0.0, -1.0)
     raise ValueError(kind)
 
 
@@ -84,6 +86,9 @@ def ineq_sets(n, d):
         "parallel": ([a, a], [0.125 * d, 0.25 * d]),
         "opposite": ([a, na], [0.125 * d, 0.125 * d]),
         "opposite0": ([a, na], [0.0, 0.0]),
+        # reached at exactly the step length at which a step along a coordinate direction reaches the trust-region
+        # boundary (a tie between the radius and an inequality)
+        "tie": ([a], [1.0 * d]),
     }
 
 
@@ -149,7 +154,7 @@ def _instances(root, odd):
                     for tcg in (True, False):
                         yield dict(base, g=[x * gs for x in g], hk=hk, tcg=tcg)
         elif fn == "constrained":
-            hks = ["zero", "I", "indef"] if (n >= 2 and tier == "quick") else HKINDS
+            hks = (["zero", "I", "indef"] if (n >= 2 and tier == "quick") else list(HKINDS)) + ["offneg"]
             gl2 = gl if n <= 2 else gl[::3]
             for g in gl2:
                 for hk in hks:
